@@ -68,7 +68,7 @@ def build_records(quick: bool, seed: int) -> list[dict[str, Any]]:
         hs = []
         for n, h in enumerate(handlers):
             hid = f'h{n + 1}'
-            spec = dict(id=hid, typ=h['typ'], ops=list(h.get('ops') or []), sub=h.get('sub') or '', outcome=h['outcome'],
+            spec = dict(id=hid, typ=h['typ'], ops=list(h.get('ops') or []), sub=h.get('sub') or '', outcome=h['outcome'], flt=h.get('flt', ''),
                         msg=f'msg-{hid}', code=400 + n + 1 if h['outcome'] == 'adm' else 0, warn=h.get('warn', ''),
                         instr=enc(h['instr']) if h.get('instr') is not None else {'t': 'n'}, fns=list(h.get('fns', [])))
             hs.append(spec)
@@ -105,14 +105,24 @@ def build_records(quick: bool, seed: int) -> list[dict[str, Any]]:
             kw = dict(registry=reg, id=hid)
             if h.get('ops'): kw['operations'] = h['ops']
             if h.get('sub') is not None: kw['subresource'] = h['sub']
+            kw.update({'': {}, 'lab_eq': dict(labels={'l': 'v'}), 'lab_absent': dict(labels={'l': kopf.ABSENT}),
+                       'fld_present': dict(field='spec.a'), 'fld_eq1': dict(field='spec.a', value=1), 'fld_absent': dict(field='spec.a', value=kopf.ABSENT),
+                       'fld_cb1': dict(field='spec.a', value=lambda v, **_: v == 1),
+                       'when_F': dict(when=lambda **_: False), 'when_T': dict(when=lambda **_: True)}[h.get('flt', '')])
             dec(*R, **kw)(mk())
         insights = references.Insights(); insights.webhook_resources.add(res)
         body = copy.deepcopy(BODY)
+        # `oldmod`: the old object of the review differs from the new one in what the filters look at (no label l, no spec.a)
+        older = copy.deepcopy(BODY)
+        if review.get('oldmod'):
+            del older['metadata']['labels']['l']; del older['spec']['a']
+        if review.get('newmod'):
+            del body['metadata']['labels']['l']; del body['spec']['a']
         request = {'apiVersion': 'admission.k8s.io/v1', 'kind': 'AdmissionReview',
                    'request': {'uid': 'uid1', 'kind': {'group': R[0], 'version': R[1], 'kind': 'Thing'},
                                'resource': {'group': R[0], 'version': R[1], 'resource': R[2]}, 'operation': review['op'],
                                'userInfo': {'username': 'u'}, 'object': body if review['op'] != 'DELETE' else None,
-                               'oldObject': body if review['op'] != 'CREATE' else None, 'dryRun': False}}
+                               'oldObject': older if review['op'] != 'CREATE' else None, 'dryRun': False}}
         if review['sub']: request['request']['subResource'] = review['sub']
         resp = {'raised': '', 'allowed': False, 'message': '', 'code': 0, 'warnings': [], 'ops': []}
         try:
@@ -131,7 +141,7 @@ def build_records(quick: bool, seed: int) -> list[dict[str, Any]]:
         except Exception as e:
             resp['raised'] = type(e).__name__
         recs.append({'handlers': hs, 'review': {'op': review['op'], 'sub': review['sub'] or '', 'webhook': review['webhook'] or ''},
-                     'body': enc(body), 'resp': resp, 'ran': list(ran)})
+                     'body': enc(body if review['op'] != 'DELETE' else older), 'resp': resp, 'ran': list(ran)})
 
     async def all_cases():
         for hs in cases:
@@ -139,6 +149,13 @@ def build_records(quick: bool, seed: int) -> list[dict[str, Any]]:
         for h in sel_cases:
             for op, sub, hint in itertools.product(['CREATE', 'UPDATE', 'DELETE'], [None, 'status'], [None, 'h1', 'h2']):
                 await one([h, dict(typ='validating', outcome='ok')], {'op': op, 'sub': sub, 'webhook': hint})
+        # filters are judged on the reviewed object (the new one; the old one when it is a deletion), whatever the other one looks like
+        for flt, typ, op, (oldmod, newmod), out in itertools.product(['lab_eq', 'lab_absent', 'fld_present', 'fld_eq1', 'fld_absent', 'fld_cb1', 'when_F', 'when_T'],
+                                                                     ['validating', 'mutating'], ['CREATE', 'UPDATE', 'DELETE'],
+                                                                     [(False, False), (True, False), (False, True), (True, True)], ['ok', 'adm']):
+            await one([dict(typ=typ, outcome=out, flt=flt, ops=['DELETE'] if typ == 'mutating' and op == 'DELETE' else None,
+                            instr=INSTRS[1] if typ == 'mutating' else None, warn='wf'), dict(typ='validating', outcome='ok')],
+                      {'op': op, 'sub': None, 'webhook': None, 'oldmod': oldmod, 'newmod': newmod})
     asyncio.run(all_cases())
     return recs
 
